@@ -132,8 +132,27 @@ func (d *pdkg) Loop() {
 	sessionReqPubs := map[string]request{}
 	sessionReqDeals := map[string]request{}
 	sessionReResps := map[string]request{}
+	// A request whose session context is done will never be served (a peer stayed silent):
+	// close its reply channel and forget it and what was buffered for it.
+	expire := func(sessionMap map[string][]interface{}, sessionReq map[string]request) {
+		for _, req := range sessionReq {
+			select {
+			case <-req.ctx.Done():
+				close(req.reply)
+				delete(sessionMap, req.sessionID)
+				delete(sessionReq, req.sessionID)
+			default:
+			}
+		}
+	}
+	watchdog := time.NewTicker(time.Minute)
+	defer watchdog.Stop()
 	for {
 		select {
+		case <-watchdog.C:
+			expire(sessionPubKeys, sessionReqPubs)
+			expire(sessionDeals, sessionReqDeals)
+			expire(sessionResps, sessionReResps)
 		case msg, ok := <-peersToBuf:
 			if !ok {
 				d.logger.Info("End peersToBuf")
